@@ -36,7 +36,14 @@ def gen_ops(rng, d, n, length):
         elif r < 0.58:
             ops.append({"k": "ref", "p": p})
         elif r < 0.78:
-            ops.append({"k": "assign", "p": p, "v": rng.choice([0, 1, 2, 7, -3]), "held": rng.random() < 0.3})
+            o = {"k": "assign", "p": p, "v": rng.choice([0, 1, 2, 7, -3]), "held": rng.random() < 0.3}
+            r6 = rng.random()
+            if r6 < 0.15:
+                o["how"] = "v"              # ref.v = scalar
+            elif r6 < 0.35:
+                o["how"] = "vfrom"          # ref.v = <the payload object of another point>: a copy of its value
+                o["from"] = rng.choice(pts) if pts else _point(rng, d, n)
+            ops.append(o)
         elif r < 0.94:
             # in-place arithmetic through the handle: += or -= (the model sees the signed amount)
             ops.append({"k": "iadd", "p": p, "v": rng.choice([1, -1, 2, 0]), "held": rng.random() < 0.3,
@@ -91,7 +98,9 @@ def gen(seed, tier):
         r4 = rng.random()
         cfg = {}
         if r4 < 0.25:
-            cfg = {"shape": [n + rng.randrange(1, 3)] * d}
+            # a declared shape — sometimes smaller than coordinates that get written (the library does not
+            # check coordinates against it, and point access must not depend on it)
+            cfg = {"shape": [rng.choice([n + 1, n + 2, 2, 1])] * d}
             if not any(o["k"] == "assignp" for o in ops):
                 cfg["fmt"] = [rng.choice("CU") for _ in range(d)]
         elif r4 < 0.4:
@@ -189,8 +198,18 @@ def run(case):
             elif k == "ref":
                 out = H.snapshot(acc.getPayloadRef(*p))
             elif k == "assign":
-                ref = handle(p, op.get("held"))
-                ref <<= op["v"]
+                if op.get("how") == "vfrom" and len(op["from"]) == len(p):
+                    src = handle(op["from"], True)      # creates the source point if need be
+                    op["v"] = H.snapshot(src)
+                    ref = handle(p, op.get("held"))
+                    ref.v = src
+                elif op.get("how") in ("v", "vfrom"):
+                    op.pop("from", None)
+                    ref = handle(p, op.get("held"))
+                    ref.v = op["v"]
+                else:
+                    ref = handle(p, op.get("held"))
+                    ref <<= op["v"]
                 out = H.snapshot(acc.getPayloadRef(*p))
             elif k == "iadd" and op.get("how") in ("elem", "item") and _stored_leaf(root, p) is not None:
                 leaf, pos = _stored_leaf(root, p)
